@@ -119,8 +119,15 @@ def run_case(case) -> Outcome:
         # @cache without arguments: documented defaults limit=1, no expiration
         limit, exp = 1, None
 
+    # ONE decorator object per case, applied to every function / method of the case (a reusable preset such as
+    # `cached = cache(limit=8)` is ordinary code): each decorated function still owns its entries
+    preset = None if case.get("bare") else cache(**kw)
+
     def deco(fn):
-        return cache(fn) if case.get("bare") else cache(**kw)(fn)
+        return cache(fn) if preset is None else preset(fn)
+
+    def impl_other(x, y):
+        return Box((-1, x, y, -1, state["now"]()), -1)
 
     if is_method:
         if is_async:
@@ -133,6 +140,10 @@ def run_case(case) -> Outcome:
                 async def f(self, x, y=None):
                     return impl(self.serial, x, y)
 
+                @deco
+                async def g(self, x, y=None):  # a second cached method of the same class (same receivers, same arguments)
+                    return impl_other(x, y)
+
         else:
 
             class Holder:  # type: ignore[no-redef]
@@ -142,6 +153,10 @@ def run_case(case) -> Outcome:
                 @deco
                 def f(self, x, y=None):
                     return impl(self.serial, x, y)
+
+                @deco
+                def g(self, x, y=None):
+                    return impl_other(x, y)
 
         recv_counter = itertools.count(1)
         receivers = [Holder(next(recv_counter)) for _ in range(3)]
@@ -157,6 +172,23 @@ def run_case(case) -> Outcome:
             @deco
             def f(x, y=None):  # type: ignore[misc]
                 return impl(0, x, y)
+
+    # a second, independently decorated function (same configuration) called with the same arguments in between: the
+    # two caches must not know of each other (entries, capacity, expiry)
+    bystander = None
+    if case.get("bystander"):
+        impl2 = impl_other
+        if is_async:
+
+            @deco
+            async def bystander(x, y=None):
+                return impl2(x, y)
+
+        else:
+
+            @deco
+            def bystander(x, y=None):  # type: ignore[misc]
+                return impl2(x, y)
 
     hist: list = []  # (key, box_serial|None, box_time|None)
     flags = {"hit": False, "evict": False, "expiry": False, "keys": set()}
@@ -176,6 +208,13 @@ def run_case(case) -> Outcome:
                     receivers[r] = Holder(next(recv_counter))
                 continue
             args, kwargs, bound = _call_args(op["form"])
+            if bystander is not None:
+                # for method variants alternate between the plain second function and the second METHOD of the receiver
+                second = getattr(receivers[op["r"] % 3], "g") if (is_method and len(hist) % 2 == 0) else bystander
+                other = (await second(*args, **kwargs)) if is_async else second(*args, **kwargs)
+                if not isinstance(other, Box) or other.tag[0] != -1 or not (_same(other.tag[1], bound[0]) and _same(other.tag[2], bound[1])):
+                    out.violate("safety", f"C12.safety/{sig}/entry-of-another-cached-function", f"the second function called with {bound!r} returned {getattr(other, 'tag', other)!r}")
+                del other
             if is_method:
                 recv = receivers[op["r"] % 3]
                 serial = recv.serial
@@ -278,6 +317,8 @@ def run_case(case) -> Outcome:
         classes.append("method-variant")
     if is_async:
         classes.append("async-variant")
+    if bystander is not None:
+        classes.append("second-cached-function")
     del twins
     out.classes = classes
     out.nontrivial = flags["hit"] and (flags["evict"] or flags["expiry"])
@@ -325,6 +366,7 @@ def strategy(tier):
             "limit": limit,
             "exp": exp,
             "bare": draw(st.integers(0, 9)) == 0,
+            "bystander": draw(st.integers(0, 3)) == 0,
             "ops": draw(st.lists(st.one_of(*ops), min_size=4, max_size=max_len)),
         }
 
@@ -370,6 +412,11 @@ def enumerate_cases(tier):
         for n in range(2, maxlen + 1):
             for ops in itertools.product(alphabet, repeat=n):
                 yield {"variant": v, "limit": l, "exp": e, "ops": list(ops)}
+    # a second cached function / second cached method (same decorator object, same arguments) called in between
+    for v in VARIANTS:
+        for l in (1, 2):
+            for ops in itertools.product(alphabet[:2], repeat=3):
+                yield {"variant": v, "limit": l, "exp": None, "ops": list(ops), "bystander": True}
     # limits 3 and 4 need limit+1 distinct keys before anything is evicted: every call history over limit+1 keys up to
     # renaming of the keys (restricted growth strings), no clock advance
     distinct = [["pos", i, 0] for i in (0, 3, 4, 6, 7)]  # 1, "1", 2, (1,), None: pairwise unequal
